@@ -1847,6 +1847,12 @@ pub fn gen_template(rng: &mut Rng, k: &Knobs, reg: &Registry, name: &str) -> Def
         });
         sigs.push(SigInfo { name: p.name.clone(), io: 1, dims: p.dims.len(), size: p.dims.first().copied().unwrap_or(0), assigned: false });
     }
+    // one input name declared in both branches of a conditional (legal since Circom 2.1):
+    // the name table has one entry, the declaration-order list two
+    if k.odd_names && rng.chance(1, 5) {
+        body.push(Stmt::Raw("if ( 1 == 1 ) { signal input dupin ; } else { signal input dupin ; }".split_whitespace().map(|s| s.to_string()).collect()));
+        inputs.push(Port { name: "dupin".into(), dims: vec![] });
+    }
     let mut ctx = Ctx {
         rng,
         k,
